@@ -126,6 +126,7 @@ def holderSlotsW : List WItem → List Lbl
   | [] => []
   | .item _ :: ws => holderSlotsW ws
   | .value _ v :: ws => holderSlots v ++ holderSlotsW ws
+  | .named _ _ v :: ws => holderSlots v ++ holderSlotsW ws
 
 /-- **Sharing is preserved both ways**: two variables hold the same array holder / the same pointer cell after the
     load iff they did before (a holder archived once and referred to by index afterwards comes back as one
@@ -137,6 +138,50 @@ theorem C10_sharing_preserved (cfg : Cfg) (classes : List Bytes) (info : Info) (
   rw [C10_roundtrip_mixed cfg classes info ws hw] at hr
   cases hr
   exact ⟨rfl, fun _ _ => Iff.rfl⟩
+
+/-- **Look-ups in a loaded hash array, keys that are not listeners**: an integer, string or constant-string key is
+    hashed the same way while loading and afterwards, so `array[key]` finds the loaded entry — for every hash function
+    and table length. -/
+theorem C10_lookup_after_load (hash : Value → Nat) (addr : Lbl → Nat) (tl : Nat) (k : Value)
+    (hk : ∀ s o, k ≠ .link 6 s o) (refiled : Bool) : foundAfterLoad refiled hash addr tl k = true := by
+  have h : keyHashAtLoad hash k = keyHashAfter hash addr k := by
+    unfold keyHashAtLoad keyHashAfter
+    split
+    · rename_i s o
+      exact absurd rfl (hk s o)
+    · rfl
+  simp [foundAfterLoad, h]
+
+/-- **Known finding G2 (as the code is)**: a Listener key is hashed as null while its entry is loaded; in a table with
+    more than one bucket a look-up afterwards searches the bucket of the listener's address and misses the entry
+    (unless that address happens to be a multiple of the table length).  Replayed on the real code on every run
+    (`corpus/C10/known-listener-key-lost.json`, signature `roundtrip:lost-key:listener-key`). -/
+theorem C10_known_listener_key_lost (hash : Value → Nat) (addr : Lbl → Nat) (tl : Nat) (s : Bool) (o : Lbl)
+    (ho : o ≠ 0) (ha : addr o % tl ≠ 0) : foundAfterLoad false hash addr tl (.link 6 s o) = false := by
+  simp [foundAfterLoad, keyHashAtLoad, keyHashAfter, ho, Nat.zero_mod]
+  exact fun h => ha h.symm
+
+/-- in a one-bucket table (and for a null listener) the entry is found -/
+theorem C10_listener_key_one_bucket (hash : Value → Nat) (addr : Lbl → Nat) (s : Bool) (o : Lbl) :
+    foundAfterLoad false hash addr 1 (.link 6 s o) = true := by
+  simp [foundAfterLoad, Nat.mod_one]
+
+/-- with the entries filed again when the archive is closed (`notes/C10-suggested-fix-2.diff`) every key is found -/
+theorem C10_lookup_after_load_refiled (hash : Value → Nat) (addr : Lbl → Nat) (tl : Nat) (k : Value) :
+    foundAfterLoad true hash addr tl k = true := by
+  simp [foundAfterLoad]
+
+/-- **Named variables** (`ScriptVariable::Archive`: what `ScriptVariableList::Archive` does for every entry of the
+    list): the name goes through `StringDictionary::ArchiveString` (text in the archive), the value through
+    `ArchiveInternal`; reading returns name text and value, and `C10_const_string_any_dictionary` interns the
+    name in the **reading** dictionary like every other constant string (`constTextsW` lists it before the
+    constant strings of its value). -/
+theorem C10_named_variable_roundtrip (cfg : Cfg) (classes : List Bytes) (info : Info) (ws : List WItem)
+    (hw : WFW cfg classes info ws) (self : Lbl) (k : Option Bytes) (v : Value) (hm : WItem.named self k v ∈ ws) :
+    decodeW cfg classes info (schemaW ws) (encodeW info ws) = .ok ws ∧
+      WItem.named self k v ∈ (match decodeW cfg classes info (schemaW ws) (encodeW info ws) with | .ok r => r | .error _ => []) := by
+  rw [C10_roundtrip_mixed cfg classes info ws hw]
+  exact ⟨rfl, hm⟩
 
 /-! ### constant strings and the dictionary of the loading session (`StringDictionary::ArchiveString`) -/
 
@@ -211,14 +256,15 @@ def sampleW : List WItem :=
    .value 17 (.holderRef 8 70), .value 18 (.pointer 80 [18, 19]), .value 19 (.holderRef 12 80),
    .value 20 (.link 10 false 1), .value 21 (.link 11 true 1),
    .value 11 (.constArray 50 1 [(51, .int 7), (52, .string []), (53, .constArray 60 0 [(61, .vector [0,0,0,0,0,0,0,0,0,0,0,0])])]),
-   .value 12 (.holderRef 9 50), .value 13 (.constString (some [97])), .value 14 .none]
+   .value 12 (.holderRef 9 50), .value 13 (.constString (some [97])), .value 14 .none,
+   .named 22 (some [110, 97, 109, 101]) (.int 1234), .named 23 none (.link 7 false 22)]
 
-def sampleW_len : Nat := 713
+def sampleW_len : Nat := 789
 
 theorem sampleW_wf : WFW Cfg.fixed [[76]] sampleInfo sampleW where
   items := by
     simp [sampleW, WFWs, WFItem, WFItems, WFValue, WFElems, valCalls, elemCalls, encItem, encItems, addUnique, svSize,
-      Prim.width, strAlloc, getClass, cstr, eqi, upc, Cfg.fixed, pairsOk, Value.hashable, encStr_length]
+      Prim.width, strAlloc, getClass, cstr, eqi, upc, Cfg.fixed, pairsOk, Value.hashable, encStr_length, WFKey]
   targets := by decide
   count := by decide
   table := by decide
@@ -242,7 +288,7 @@ example : ∃ L, decodeWD Cfg.fixed [[76]] sampleInfo (schemaW sampleW) [[120], 
     L.items = sampleW ∧ [[120], [97]] <+: L.dict ∧ L.ids.map L.dict.text = (constTextsW sampleW).map some :=
   C10_const_string_any_dictionary _ _ _ _ sampleW_wf _
 
-example : constTextsW sampleW = [[107], [97]] := by decide
+example : constTextsW sampleW = [[107], [97], [110, 97, 109, 101]] := by decide
 example : holderSlotsW sampleW = [70, 70, 80, 80, 50, 60, 50] := by decide
 example : (Dict.loadAll [] [[97], [98], [97]]).2 = [1, 2, 1] := by decide
 example : (Dict.loadAll [[98]] [[97], [98], [97]]) = ([[98], [97]], [2, 1, 2]) := by decide
